@@ -11,6 +11,12 @@
 //	    value lies inside the window - so that results under an unchanged anchor differ exactly
 //	    by the scaled pts difference - and a new anchor (result = wall clock) only when the value
 //	    leaves the window. At the two window edges (computed value equal to, or rounding across, wallclock or wallclock-5s) both are accepted.
+//
+// Two alphabets are searched: the short-range one (stepsFor: small pts / clock deltas, jitter, stalls,
+// wall-clock steps) and the long-run one (longStepsFor: the estimator is carried hours to weeks away
+// from its anchor by steps that advance pts and the steady clock together, with and without a lag
+// left by an earlier late frame, across the tick counts where an intermediate of the tick->ns scaling
+// can leave a 32/64-bit range).
 package main
 
 import (
@@ -135,6 +141,58 @@ func stepsFor(rate int64) []step {
 			out = append(out, step{p.n + "," + c.n, p.v, c.w, c.m})
 		}
 	}
+	return out
+}
+
+// ticks at which the 64-bit product (pts-refPTS)*1e9 leaves the signed / unsigned range
+const (
+	ovfSigned   = int64(9223372036)  // floor((2^63-1)/1e9): B*1e9 fits in int64, (B+1)*1e9 does not
+	ovfUnsigned = int64(18446744073) // floor((2^64-1)/1e9)
+)
+
+// longStepsFor is the alphabet of the long-run phase: a few small steps that create, change or remove a
+// lag between the stream and the wall clock, plus "fast-forward" steps in which the frame timestamp and
+// the (steady) clock advance TOGETHER by a large, exactly corresponding amount - so that the estimator
+// is far from its anchor without ever leaving the window - plus large timestamp discontinuities that the
+// clock does not follow. The fast-forward amounts are whole hours (1, 28, 29, 60, 300 h) and tick counts
+// around the places where an intermediate of the tick->ns scaling can leave a machine range
+// (2^31, 2^32, 2^33 ticks; 2^63/1e9 and 2^64/1e9 ticks); where the tick count does not correspond to a
+// whole number of nanoseconds the clock advance is taken both rounded down and rounded up.
+func longStepsFor(rate int64) []step {
+	frameTicks := rate / 30
+	frameNs := frameTicks * sec / rate
+	out := []step{
+		{"pts+1frame,clk+1frame", frameTicks, frameNs, frameNs},
+		{"pts+0,clk+1s(late frame)", 0, sec, sec},
+		{"pts+1frame,clk+1frame+1ms", frameTicks, frameNs + 1000000, frameNs + 1000000},
+		{"pts+1s,clk+1frame(catch up)", rate, frameNs, frameNs},
+		{"pts+0,clk+5s", 0, 5 * sec, 5 * sec},
+		{"pts+1frame,wall-1s(jump,mono+1frame)", frameTicks, -sec, frameNs},
+	}
+	type ff struct {
+		n string
+		t int64
+	}
+	var ffs []ff
+	for _, h := range []int64{1, 28, 29, 60, 300} {
+		ffs = append(ffs, ff{fmt.Sprintf("%dh", h), h * 3600 * rate})
+	}
+	ffs = append(ffs,
+		ff{"(2^31+1)ticks", 1<<31 + 1}, ff{"(2^32+1)ticks", 1<<32 + 1}, ff{"(2^33+1)ticks", 1<<33 + 1},
+		ff{"floor(2^63/1e9)ticks", ovfSigned}, ff{"(floor(2^63/1e9)+1)ticks", ovfSigned + 1},
+		ff{"(floor(2^64/1e9)+1)ticks", ovfUnsigned + 1})
+	for _, f := range ffs {
+		fl, ce := scale(f.t, rate)
+		out = append(out, step{"fastforward pts+" + f.n + ",clk+same", f.t, fl, fl})
+		if ce != fl {
+			out = append(out, step{"fastforward pts+" + f.n + ",clk+same(ceil)", f.t, ce, ce})
+		}
+	}
+	out = append(out,
+		step{"pts+(floor(2^63/1e9)+1)ticks(discontinuity),clk+1frame", ovfSigned + 1, frameNs, frameNs},
+		step{"pts-(floor(2^63/1e9)+1)ticks(discontinuity),clk+1frame", -(ovfSigned + 1), frameNs, frameNs},
+		step{"pts+(floor(2^64/1e9)+1)ticks(discontinuity),clk+1frame", ovfUnsigned + 1, frameNs, frameNs},
+	)
 	return out
 }
 
@@ -297,6 +355,7 @@ func key(o observation, wall, mono, pts int64, ref []anchor) string {
 
 type explorer struct {
 	r        *vcommon.Run
+	phase    string // prefix of the distinct-class keys ("" = short-range phase)
 	rate     int64
 	b        base
 	steps    []step
@@ -390,7 +449,7 @@ func (x *explorer) expand(n *node, s step) *node {
 			bad = true
 		} else {
 			x.classes[cls]++
-			x.r.Distinct(fmt.Sprintf("rate%d|%s|%s", x.rate, cls, s.name))
+			x.r.Distinct(fmt.Sprintf("%srate%d|%s|%s", x.phase, x.rate, cls, s.name))
 		}
 	}
 	if bad {
@@ -446,6 +505,7 @@ func (x *explorer) run(depth int) {
 }
 
 var flagDepth = flag.Int("depth", 0, "override the history bound")
+var flagLongDepth = flag.Int("longdepth", 0, "override the history bound of the long-run phase")
 
 func main() {
 	r := vcommon.Start("C25", "model_checking")
@@ -453,14 +513,17 @@ func main() {
 	ntpestimator.VerifC25SetClock(func() time.Time { return curClock })
 
 	rates := []int64{90000, 48000, 1000}
-	depth := 5
+	depth, longDepth := 5, 4
 	budget := 150 * time.Second
 	if r.Thorough() {
-		depth = 6
+		depth, longDepth = 6, 5
 		budget = 12 * time.Minute
 	}
 	if *flagDepth > 0 {
 		depth = *flagDepth
+	}
+	if *flagLongDepth > 0 {
+		longDepth = *flagLongDepth
 	}
 	start := time.Now()
 
@@ -476,20 +539,21 @@ func main() {
 
 	totalStates, totalTrans, totalExecs, maxDepth := 0, 0, 0, 0
 	classes := map[string]int{}
+	longClasses := map[string]int{}
 	boundDone := map[string]int{}
 	exhaustive := true
 
 	// ---- cross-checks at depth 3: (a) full enumeration without merging vs. search with merging must
 	// reach the same set of canonical states and the same verdicts; (b) every base (absolute clock /
 	// pts origin) gives the same set of canonical states (translation invariance of the key).
-	for _, rate := range rates {
+	crossCheck := func(phase string, rate int64, steps []step) {
 		var sets []map[string]bool
 		for bi, b := range bases {
 			for _, dd := range []bool{false, true} {
 				if bi > 0 && !dd {
 					continue
 				}
-				x := &explorer{r: r, rate: rate, b: b, steps: stepsFor(rate), dedup: dd}
+				x := &explorer{r: r, phase: phase, rate: rate, b: b, steps: steps, dedup: dd}
 				v0 := r.ViolationCount()
 				x.run(3)
 				totalExecs += x.execs
@@ -502,29 +566,26 @@ func main() {
 		}
 		for i := 1; i < len(sets); i++ {
 			if len(sets[i]) != len(sets[0]) {
-				vcommon.Harness("state merging is not sound / not translation invariant: rate %d, %d vs %d canonical states at depth 3", rate, len(sets[0]), len(sets[i]))
+				vcommon.Harness("%sstate merging is not sound / not translation invariant: rate %d, %d vs %d canonical states at depth 3", phase, rate, len(sets[0]), len(sets[i]))
 			}
 			for k := range sets[0] {
 				if !sets[i][k] {
-					vcommon.Harness("state merging is not sound / not translation invariant: rate %d, state %s missing", rate, k)
+					vcommon.Harness("%sstate merging is not sound / not translation invariant: rate %d, state %s missing", phase, rate, k)
 				}
 			}
 		}
 	}
-
-	// ---- the search proper
-	for ri, rate := range rates {
-		x := &explorer{r: r, rate: rate, b: bases[ri%len(bases)], steps: stepsFor(rate), dedup: true}
-		x.deadline = start.Add(budget)
-		done := 0
+	search := func(phase string, ri int, rate int64, steps []step, depth int, deadline time.Time, cl map[string]int) *explorer {
+		x := &explorer{r: r, phase: phase, rate: rate, b: bases[ri%len(bases)], steps: steps, dedup: true}
+		x.deadline = deadline
 		// iterative deepening is not needed: BFS by levels; record the completed bound
 		x.run(depth)
-		done = depth
+		done := depth
 		if x.timedOut {
 			exhaustive = false
 			done = x.maxDepth - 1
 		}
-		boundDone[fmt.Sprintf("rate%d", rate)] = done
+		boundDone[fmt.Sprintf("%srate%d", phase, rate)] = done
 		totalStates += x.states
 		totalTrans += x.trans
 		totalExecs += x.execs
@@ -533,8 +594,52 @@ func main() {
 			maxDepth = x.maxDepth
 		}
 		for k, v := range x.classes {
-			classes[k] += v
+			cl[k] += v
 		}
+		return x
+	}
+
+	// ---- long-run phase (first: it is small and must not be starved by the short-range search):
+	// the estimator far from its anchor, inside the window, with and without a lag
+	for ri, rate := range rates {
+		st := longStepsFor(rate)
+		crossCheck("long|", rate, st)
+		x := search("long|", ri+1, rate, st, longDepth, start.Add(budget/3), longClasses)
+		if ri == 0 {
+			var late, ff step
+			for _, s := range st {
+				if s.dpts == 0 && s.dwall == sec {
+					late = s
+				}
+				if s.dpts == 29*3600*rate {
+					ff = s
+				}
+			}
+			h := []step{{name: "first"}, late, ff, st[0]}
+			obs := execute(rate, x.b, h)
+			var rel []int64
+			w := x.b.wall0
+			for i, o := range obs {
+				w += h[i].dwall
+				rel = append(rel, o.r-w)
+			}
+			r.Sample(map[string]any{"clock_rate": rate, "history": histString(h), "result_minus_wallclock_ns": rel})
+		}
+	}
+	// non-vacuity of the long-run phase: fast-forward steps must have been judged against a kept anchor
+	// strictly inside the window (a lag that has to survive) as well as on the clock
+	if longClasses["computed-inside"] == 0 || longClasses["computed==now"] == 0 || longClasses["reanchor-ahead"] == 0 || longClasses["reanchor-behind"] == 0 {
+		if r.ViolationCount() == 0 {
+			vcommon.Harness("vacuous long-run phase: outcome classes %v", longClasses)
+		}
+	}
+
+	// ---- the short-range search
+	for _, rate := range rates {
+		crossCheck("", rate, stepsFor(rate))
+	}
+	for ri, rate := range rates {
+		x := search("", ri, rate, stepsFor(rate), depth, start.Add(budget), classes)
 		if ri == 0 {
 			// samples: a few histories
 			st := x.steps
@@ -557,17 +662,22 @@ func main() {
 	r.Rule = "breadth-first search over histories: first estimate, then up to `bound` steps, each step = (delta pts in {0,+1 tick,+1 frame,+1 s,+6 s,-1 frame}) x " +
 		"(delta clock in {0,+1 frame floor/ceil ns,+1 s,+5 s,+6 s,+1 frame +-1 ms, wall clock stepped -1 s or +6 s while the monotonic clock advances one frame}), " +
 		"clock rates 90000/48000/1000, clock readings carry a monotonic part like time.Now(); states merged by (now-refNTP, pts-refPTS, reference anchors); " +
-		"every transition replays its history on a fresh real Estimator. distinct = (rate, reference outcome class, step)"
+		"every transition replays its history on a fresh real Estimator. Long-run phase (same search, own alphabet, bound `long|...`): 6 small steps that create/change/remove a lag " +
+		"(steady frame, late frame +1 s, +1 ms jitter, catch-up, +5 s stall, wall clock stepped -1 s) + fast-forward steps advancing pts and the steady clock together by " +
+		"1/28/29/60/300 h and by 2^31+1, 2^32+1, 2^33+1, floor(2^63/1e9), floor(2^63/1e9)+1, floor(2^64/1e9)+1 ticks (clock advance rounded down and, where inexact, up) " +
+		"+ pts discontinuities of +-(floor(2^63/1e9)+1) and +(floor(2^64/1e9)+1) ticks not followed by the clock. distinct = (phase, rate, reference outcome class, step)"
 	r.Set("states", totalStates)
 	r.Set("transitions", totalTrans)
 	r.Set("traces_validated_against_impl", totalExecs)
 	r.Set("max_depth", maxDepth+0)
 	r.Set("bound_completed", boundDone)
 	r.Set("outcome_classes", classes)
-	r.Set("steps_per_state", map[string]int{"rate90000": len(stepsFor(90000)), "rate48000": len(stepsFor(48000)), "rate1000": len(stepsFor(1000))})
+	r.Set("outcome_classes_long_run", longClasses)
+	r.Set("steps_per_state", map[string]int{"rate90000": len(stepsFor(90000)), "rate48000": len(stepsFor(48000)), "rate1000": len(stepsFor(1000)),
+		"long|rate90000": len(longStepsFor(90000)), "long|rate48000": len(longStepsFor(48000)), "long|rate1000": len(longStepsFor(1000))})
 	r.Exhaustive = exhaustive
 	r.Assumptions = []string{
-		"pts and clock values stay far from the int64 limits (no overflow of pts-refPTS or of the scaling); clock rates 90000, 48000, 1000 only",
+		"pts and clock values themselves stay far from the int64 limits (|pts|, |pts-refPTS| < 2^40 ticks, scaled differences < 3 years); distances from the anchor at which the product (pts-refPTS)*1e9 leaves int64/uint64 ARE covered by the long-run phase; clock rates 90000, 48000, 1000 only",
 		"state merging relies on translation invariance of Estimate; cross-checked at depth 3 against the unmerged enumeration and three absolute origins",
 		"fake clock readings are built with unsafe access to time.Time (layout validated at start-up against the time package)",
 		"'differ exactly' is read at nanosecond resolution: either rounding of the exact rational scaling is accepted; at the exact window edges both keeping and renewing the anchor are accepted",
